@@ -18,6 +18,8 @@ def run(rep):
     c06.s1(rep, w)      # teardown of a failed run must not leave closures pointing into the discarded stack
     import c14
     c14.m4(rep, w)      # a snippet whose import fails to load/compile leaves no half-registered module behind
+    c14.m4b(rep, w)
+    n5(rep, w)
 
 
 def vm_field_writes(w, f):
@@ -236,3 +238,30 @@ def n4(rep, w):
         else:
             r.bad('Vm.%s survives reset()' % fld, 'a run can change Vm.%s and reset() does not re-initialise it: after reset the interpreter '
                   'differs from a new one' % fld, rs.loc())
+
+
+COMPILE_MAY_WRITE = {
+    'chunks': 'compiled code is kept alive by the Vm (reset() restores the core chunks)',
+    'string_store': 'interning; strings are immortal and content-addressed, so an extra entry changes no later lookup',
+}
+
+
+def n5(rep, w):
+    """a snippet that fails to compile must leave nothing behind: compile() may only intern strings and hand its chunks to the Vm"""
+    import c08
+    r = rep.rule('N5', 'compile() writes no interpreter state besides the chunk list and the intern table (a compile error defines nothing)', floor=2)
+    reach = w.reach_from({'yarel::compiler::compile'})
+    fields = {}
+    for p_ in reach:
+        f = w.fns.get(p_)
+        if f is None or not p_.startswith('yarel::'):
+            continue
+        _, ws = c08.field_accesses(w, f, 0)
+        for (adt, fld) in ws:
+            if adt == 'yarel::vm::Vm':
+                fields.setdefault(fld, set()).add(p_)
+    if not fields:
+        raise Broken('C15', 'anchor', 'compile() reaches no writer of a Vm field (call graph lost?)')
+    for fld, who in sorted(fields.items()):
+        r.check(fld in COMPILE_MAY_WRITE, 'Vm.%s written under compile() (%s)' % (fld, COMPILE_MAY_WRITE.get(fld, '')),
+                'compile() can write Vm.%s (in %s): a snippet that fails to compile leaves that state changed for the snippets that follow' % (fld, sorted(who)[:3]))
